@@ -411,6 +411,9 @@ func checkC20(p *Prog, r *Report) {
 		}
 		r.Check(len(missing) == 0, "replacePairRemote keeps the remembered nomination", p.Pos(f.Body.Pos()), "nominateOnBindingSuccess, nominated, state copied from the same field", "not carried over: "+strings.Join(missing, ", ")+" — the value was already recorded as accepted, so the retransmitted nomination is rejected as 'not greater' and the controlled agent never switches")
 	}
+	// ---- R20.7 a remembered nomination is applied as it would have been on arrival ---------------------------
+	r.Rule("R20.7", "When the triggered check of a pair that was nominated before it was valid succeeds, the controlled agent selects it exactly when nothing is selected, or another pair is selected and (priorities need not be checked or the selected pair's priority is not greater): an accepted renomination of an equal-priority pair is not dropped (table shared with C03 R3.1; that the nomination value is ignored on this path is the known finding F7).", 4)
+	checkControlledDeferredTable(p, r)
 }
 
 func rowKey(sp *SemPath, names ...string) string {
